@@ -28,6 +28,10 @@ type c11Report struct {
 	Outcomes     int     `json:"distinct_outcomes"`
 	Schedules    int     `json:"distinct_schedules"`
 	Exhaustive   bool    `json:"exhaustive_within_bound"`
+	All          bool    `json:"all_interleavings"`
+	MinBound     int     `json:"requested_bound"`
+	HBStates     int     `json:"distinct_happens_before_states"`
+	Pruned       int64   `json:"subtrees_pruned_as_already_visited"`
 	Sample       string  `json:"sample_schedule"`
 	WallS        float64 `json:"wall_s"`
 	Violations   []struct {
@@ -52,7 +56,7 @@ func C11(tier string) {
 	repo := ev.Repo()
 	work := filepath.Join(ev.Root(), ".work", fmt.Sprintf("c11-%d", os.Getpid()))
 	_ = os.MkdirAll(work, 0o755)
-	defer os.RemoveAll(work)
+	ev.AtExit(func() { os.RemoveAll(work) })
 
 	overlay, st, err := instr.Generate(repo, work, filepath.Join(ev.Root(), "engine", "xsched"))
 	if err != nil {
@@ -109,26 +113,31 @@ func C11(tier string) {
 		name = parts[1]
 		scens = append(scens, scen{n, name})
 	}
+	// guaranteed preemption bound per scenario (the pass at this bound always
+	// completes); deeper bounds are explored while the per-scenario budget lasts
 	deep := 2
-	budget := 40
+	budget := 10
 	if tier == "thorough" {
-		deep, budget = 3, 600
+		deep, budget = 4, 600
 	}
 	boundFor := func(s scen) int {
 		for _, k := range []string{"first From16Bit x2", "first To16Bit x2", "first From16Bit vs To16Bit", "ciexyz/"} {
 			if strings.Contains(s.name, k) {
-				return -1 // all interleavings
+				return 99 // all interleavings
 			}
 		}
 		if strings.Contains(s.name, "LineariseColor vs EncodeColor") || strings.HasPrefix(s.name, "srgb+displayp3/") {
 			return deep + 1
 		}
-		if s.threads >= 4 || strings.Contains(s.name, "parallelism 11") || strings.Contains(s.name, "x3 png jpeg webp") {
+		if strings.Contains(s.name, "parallelism 11") {
+			return deep - 2
+		}
+		if s.threads >= 4 || strings.Contains(s.name, "parallelism 5") || strings.Contains(s.name, "x3 png jpeg webp") {
 			return deep - 1
 		}
 		return deep
 	}
-	r.Rule(fmt.Sprintf("%d scenarios on the overlay-instrumented real code, fresh package state per execution: first-use races of the lazily built 16-bit tables (2 and 3 goroutines, 1-2 calls each, per space and across srgb/displayp3), image transforms and prism.ConvertImageTo* with parallelism 2 and 3 on 3x2 images down every destination path (tables first touched inside the workers), two image transforms at once, two concurrent Loads per loader, concurrent adaptations; 2-goroutine single-call first-use scenarios: ALL interleavings of hooked operations; the others: all schedules with <= %d preemptions (one more for the two-call colour scenarios); every execution is checked by a vector-clock happens-before race detector (edges: go, Once, WaitGroup, Mutex) and against each call's value when executed alone; plus a free-running go build -race pass of the same scenario bodies and of four larger image workloads (100x120, more than 20,000 table look-ups) that are too big to explore; states = scheduling decision points, transitions = thread switches taken, traces = executions", len(scens), deep))
+	r.Rule(fmt.Sprintf("%d scenarios on the overlay-instrumented real code, fresh package state per execution: first-use races of the lazily built 16-bit tables (2 and 3 goroutines, 1-2 calls each, per space and across srgb/displayp3), image transforms and prism.ConvertImageTo* with parallelism 2 and 3 on 3x2 images down every destination path (tables first touched inside the workers), two image transforms at once, two concurrent Loads per loader, concurrent adaptations; iterative context bounding with happens-before state caching (a state = the multiset of per-goroutine history hashes, each history folding in the history of every write it read or overwrote and every release it acquired; a state reached again with no fewer preemptions used is not expanded again); 2-goroutine single-call first-use scenarios: ALL interleavings of hooked operations guaranteed; the others: all schedules with <= %d preemptions guaranteed (one more for the two-call colour scenarios, one or two fewer for 4 goroutines and parallelism 5/11), then one more preemption at a time while the per-scenario budget lasts, ending early when a pass was never limited by the bound (= all interleavings); the bound completed per scenario is in coverage.scenarios; every execution is checked by a vector-clock happens-before race detector (edges: go, Once, WaitGroup, Mutex) and against each call's value when executed alone; plus a free-running go build -race pass of the same scenario bodies and of four larger image workloads (100x120, more than 20,000 table look-ups) that are too big to explore; states = scheduling decision points, transitions = thread switches taken, traces = executions", len(scens), deep))
 	r.Assume("interleavings are sequentially consistent; weak-memory behaviours are covered through the race oracle (race-free programs have only SC executions); consecutive same-kind accesses by one goroutine to the same 8-byte cell are one scheduling step; accesses through pointers whose address was taken, and code outside the instrumented packages, are covered only by the free-running -race pass")
 
 	var mu sync.Mutex
@@ -200,6 +209,7 @@ func C11(tier string) {
 
 	var summary []map[string]interface{}
 	allExh := true
+	nAll := 0
 	for _, rep := range reports {
 		r.States(rep.States)
 		r.Trans(rep.Transitions)
@@ -208,9 +218,13 @@ func C11(tier string) {
 		r.Distinct(rep.Scenario)
 		if !rep.Exhaustive {
 			allExh = false
-			r.Cap("time budget in scenario " + rep.Scenario)
+			r.Cap("hard deadline before the guaranteed bound completed in scenario " + rep.Scenario)
 		}
-		summary = append(summary, map[string]interface{}{"scenario": rep.Scenario, "threads": rep.Threads, "preemption_bound": rep.Bound, "executions": rep.Executions,
+		if rep.All {
+			nAll++
+		}
+		summary = append(summary, map[string]interface{}{"scenario": rep.Scenario, "threads": rep.Threads, "preemption_bound_completed": rep.Bound, "preemption_bound_guaranteed": rep.MinBound, "all_interleavings": rep.All, "executions": rep.Executions,
+			"distinct_happens_before_states_last_pass": rep.HBStates, "subtrees_pruned_as_already_visited": rep.Pruned,
 			"decision_points": rep.States, "distinct_schedules": rep.Schedules, "distinct_outcomes": rep.Outcomes, "complete_within_bound": rep.Exhaustive, "max_decisions_in_one_execution": rep.MaxDecisions})
 		if rep.Sample != "" {
 			r.Sample(map[string]interface{}{"scenario": rep.Scenario, "schedule": rep.Sample})
@@ -218,6 +232,7 @@ func C11(tier string) {
 	}
 	r.Set("scenarios", summary)
 	r.Set("all_scenarios_complete_within_bound", allExh)
+	r.Set("scenarios_with_all_interleavings_explored", nAll)
 	r.Finish()
 }
 
